@@ -10,6 +10,7 @@ namespace symns
 {
 template <class T> struct OtherT { typedef double type; };
 template <> struct OtherT<double> { typedef long double type; };
+template <> struct OtherT<int64_t> { typedef long double type; }; // 64-bit significand: the round trip through S is exact for every int64, extremes included
 template <> struct OtherT<Sym> { typedef SymB type; };
 // foreign aggregates for the interop constructors / assignments
 template <class T> struct FXY { T x, y; };
@@ -20,6 +21,102 @@ template <class T, int N> struct FSub2 { T d[N][N]; const T* operator[] (int i) 
 
 // counters reported next to the TV summary (hit counts of the special generators below); written by sym_c04.cpp
 inline std::map<std::string, long>& c04stats () { static std::map<std::string, long> m; return m; }
+
+//---------------------------------------------------------------------------------------------------
+// (0) int / int64: the generic generator keeps |v| <= 100 (signed overflow is undefined behaviour).  Every branch-free
+// entry is additionally run on EXTREME operands (max, min, max-1, min+1, +-2^(bits/2), large random values mixed with
+// 0, +-1, +-2) chosen so that no intermediate result of the extracted tree leaves the range of T -- checked node by
+// node in 128-bit arithmetic (also: divisor != 0, no min / -1).  Wrap-around itself is not exercised for int / int64
+// (it is undefined); for short / unsigned char (promotion, truncation on store) the full-range mode of the generic
+// generator does it.
+typedef __int128 C04Wide;
+template <class T> inline bool c04SafeNode (const Node* n, const std::map<const Node*, C04Wide>& env, std::map<const Node*, C04Wide>& memo, C04Wide& r)
+{
+    auto it = memo.find (n);
+    if (it != memo.end ()) { r = it->second; return true; }
+    const C04Wide lo = (C04Wide) std::numeric_limits<T>::lowest (), hi = (C04Wide) std::numeric_limits<T>::max ();
+    C04Wide a = 0, b = 0;
+    if (n->k.size () >= 1 && !c04SafeNode<T> (n->k[0], env, memo, a)) return false;
+    if (n->k.size () >= 2 && !c04SafeNode<T> (n->k[1], env, memo, b)) return false;
+    switch (n->op)
+    {
+        case VAR: { auto e = env.find (n); if (e == env.end ()) return false; r = e->second; break; }
+        case LIT: if (n->lit != std::floor (n->lit)) return false; r = (C04Wide) n->lit; break;
+        case ADD: r = a + b; break;
+        case SUB: r = a - b; break;
+        case MUL: r = a * b; break;
+        case DIV: if (b == 0) return false; r = a / b; break;
+        case NEG: r = -a; break;
+        default: return false; // anything else: not known to be safe
+    }
+    if (r < lo || r > hi) return false;
+    memo[n] = r;
+    return true;
+}
+template <class T> TVFn makeTVIntX (void (*body) (Ctx<T>&), const char* ty)
+{
+    TVFn base = makeTV<T> (body);
+    return [body, ty, base] (const FnRecord& f, unsigned long seed, int n, bool nozero, std::string& detail, TVStats& st) -> bool {
+        if (!base (f, seed, n, nozero, detail, st)) return false;
+        if (f.paths.size () != 1) return true; // the comparison trees have their own generators
+        std::mt19937_64 g (seed ^ 0x51ed270b0f1e2d3cull);
+        size_t nin = 0;
+        for (auto& p : f.params) nin += p.vars.size ();
+        const T mx = std::numeric_limits<T>::max (), mn = std::numeric_limits<T>::lowest ();
+        const T half_ = (T) ((C04Wide) 1 << (sizeof (T) * 4 - 1)); // about sqrt (max): products near the boundary
+        const T pool[] = {mx, mn, (T) (mx - 1), (T) (mn + 1), half_, (T) -half_, (T) (half_ + 1), (T) (mx / 2), (T) (mn / 2), (T) (mx / 3), 0, 1, -1, 2, -2, 3};
+        std::string key = std::string ("intx.") + ty;
+        long ran = 0;
+        for (int k = 0; k < n / 2 + 4; ++k)
+        {
+            for (int attempt = 0; attempt < 40; ++attempt)
+            {
+                std::vector<T> in (nin);
+                bool extreme = false;
+                size_t one = g () % (nin ? nin : 1);
+                for (size_t q = 0; q < nin; ++q)
+                {
+                    unsigned r = (unsigned) (g () % 16);
+                    if (attempt > 20) r = (q == one) ? r % 10 : 10 + r % 3;      // later attempts: ONE extreme slot, partners from {0, 1, -1}
+                    T x = (r == 9) ? (T) g () : pool[r];                          // r == 9: any bit pattern
+                    in[q] = x;
+                    if (x > (T) 100 || x < (T) -100) extreme = true;
+                }
+                if (!extreme) continue;
+                std::map<const Node*, C04Wide> env, memo;
+                size_t i = 0;
+                for (auto& p : f.params) for (auto* v : p.vars) env[v] = (C04Wide) in[i++];
+                bool safe = true;
+                for (auto* v : f.paths[0].leaf.vals) { C04Wide r; if (!c04SafeNode<T> (v, env, memo, r)) { safe = false; break; } }
+                if (!safe) continue;
+                ++st.evals; ++st.nontrivial; ++ran;
+                std::string d;
+                if (!tvOne<T> (f, body, in, d))
+                {
+                    std::ostringstream s;
+                    s << d << " :: in=";
+                    for (auto& x : in) s << (long long) x << " ";
+                    detail = s.str ();
+                    return false;
+                }
+                break;
+            }
+        }
+        c04stats ()[key + ".extreme_inputs_run"] += ran;
+        ++c04stats ()[key + ".branch_free_entries"];
+        if (ran >= n / 4) ++c04stats ()[key + ".branch_free_entries_with_extreme_inputs"];
+        return true;
+    };
+}
+// every EXTRACT_ALLT entry of this table: int and int64 through makeTVIntX
+#undef EXTRACT_ALLT
+#define EXTRACT_ALLT(module, ident, leanname, ...)                                                     \
+    struct X_##ident { template <class T> static void run (symns::Ctx<T>& c) __VA_ARGS__ };            \
+    static int reg_##ident = (symns::entries ().push_back (symns::Entry{module, leanname, symns::Opts (), &X_##ident::run<symns::Sym>, \
+        {{"double", symns::makeTV<double> (&X_##ident::run<double>)}, {"float", symns::makeTV<float> (&X_##ident::run<float>)},  \
+         {"half", symns::makeTV<half> (&X_##ident::run<half>)}, {"int", symns::makeTVIntX<int> (&X_##ident::run<int>, "int")},   \
+         {"short", symns::makeTV<short> (&X_##ident::run<short>)}, {"int64", symns::makeTVIntX<int64_t> (&X_##ident::run<int64_t>, "int64")}, \
+         {"uchar", symns::makeTV<unsigned char> (&X_##ident::run<unsigned char>)}}, symns::makeRun (&X_##ident::run<double>)}), 0);
 
 //---------------------------------------------------------------------------------------------------
 // (1) equalWithAbsError / equalWithRelError at all seven element types.
@@ -63,6 +160,17 @@ template <class T> TVFn makeTVEqErr (void (*body) (Ctx<T>&), const char* ty)
                 case 4: for (size_t i = 0; i < N; ++i)                                                       // every slot within e
                             in[N + i] = isInt ? T (in[i] + T (g () % 2 ? e : T (0))) : T (float (double (in[i]) + double (e) * 0.5)); break;
                 default: break;
+            }
+            if (isInt && !small && k % 6 == 5)
+            {
+                // int / int64 extremes without overflow: all operands within 1000 of max (or of min + 1), e in {0, 1}:
+                // |x1 - x2| <= 1000 and e * |x1| <= max
+                const bool top = (g () & 1) != 0;
+                for (size_t i = 0; i < 2 * N; ++i)
+                    in[i] = top ? (T) (std::numeric_limits<T>::max () - (T) (g () % 1000)) : (T) (std::numeric_limits<T>::lowest () + 1 + (T) (g () % 1000));
+                if (g () % 3) for (size_t i = 0; i < N; ++i) in[N + i] = (g () % 4) ? in[i] : (T) (in[i] + (top ? -1 : 1) * (T) (g () % 2));
+                e = (T) (g () % 2);
+                ++c04stats ()[key + ".integer_extremes"];
             }
             if (!isInt && k % 12 == 11)
             {
@@ -120,6 +228,13 @@ template <class T> TVFn makeTVTwin (void (*body) (Ctx<T>&), const char* ty)
         for (int k = 0; k < 2 * n; ++k)
         {
             auto in = TVGen<T>::values (g, nin, k, true, false);
+            if (isInt && k % 8 >= 4)
+            {
+                // integer extremes (no arithmetic in == / !=, so any bit pattern is safe)
+                const T ext[] = {std::numeric_limits<T>::max (), std::numeric_limits<T>::lowest (), (T) (std::numeric_limits<T>::max () - 1), (T) (std::numeric_limits<T>::lowest () + 1), 0, (T) -1};
+                for (auto& x : in) x = (g () % 3 == 0) ? (T) g () : ext[g () % 6];
+                ++c04stats ()[key + ".integer_extremes"];
+            }
             size_t slot = (size_t) (k / 4) % N;
             if (k % 4 != 0) for (size_t i = 0; i < N; ++i) in[N + i] = in[i];
             if (k % 4 == 2) { in[N + slot] = isInt ? T (in[slot] + T (1 + g () % 5)) : T (float (double (in[slot]) + 0.5 + double (g () % 4))); ++c04stats ()[key + ".one_slot_differs"]; }
@@ -202,8 +317,8 @@ template <class T> TVFn makeTVDivF (void (*body) (Ctx<T>&), const char* ty)
     struct X_##ident { template <class T> static void run (symns::Ctx<T>& c) __VA_ARGS__ };            \
     static int reg_##ident = (symns::entries ().push_back (symns::Entry{module, leanname, symns::Opts ().nz (), &X_##ident::run<symns::Sym>, \
         {{"double", symns::makeTVDivF<double> (&X_##ident::run<double>, "double")}, {"float", symns::makeTVDivF<float> (&X_##ident::run<float>, "float")},  \
-         {"half", symns::makeTVDivF<half> (&X_##ident::run<half>, "half")}, {"int", symns::makeTV<int> (&X_##ident::run<int>)},              \
-         {"short", symns::makeTV<short> (&X_##ident::run<short>)}, {"int64", symns::makeTV<int64_t> (&X_##ident::run<int64_t>)}, \
+         {"half", symns::makeTVDivF<half> (&X_##ident::run<half>, "half")}, {"int", symns::makeTVIntX<int> (&X_##ident::run<int>, "int")},              \
+         {"short", symns::makeTV<short> (&X_##ident::run<short>)}, {"int64", symns::makeTVIntX<int64_t> (&X_##ident::run<int64_t>, "int64")}, \
          {"uchar", symns::makeTV<unsigned char> (&X_##ident::run<unsigned char>)}}, symns::makeRun (&X_##ident::run<double>)}), 0);
 
 //---------------------------------------------------------------------------------------------------
@@ -604,10 +719,35 @@ EXTRACT_ALLT ("C04Vec", v4_interopArr, "V4.interopArr", { IN (Vec4, a); T f[4] =
 #define G_ARR2(Ty, id, L, N) EXTRACT_ALLT ("C04Mat", id##_interopArr2, L ".interopArr2", { IN (Ty, a); T f[N][N]; for (int i = 0; i < N; ++i) for (int j = 0; j < N; ++j) f[i][j] = a.x[i][j]; Ty<T> d; d = f; c.out (d); })
 G_ARR2 (Matrix22, m22, "M22", 2) G_ARR2 (Matrix33, m33, "M33", 3) G_ARR2 (Matrix44, m44, "M44", 4)
 
-// ---- operator<< leaves the caller's stream state as it found it (the matrix operators switch the stream to scientific / showpoint while printing)
+// ---- operator<< leaves the caller's stream state as it found it (the matrix operators switch the stream to scientific / showpoint
+// while printing, in both arms of `if (s.flags () & fixed)`).  A run-time observation recorded as a Boolean literal: four stream states
+// (default / precision 5; fixed / 3; scientific / 9; showpos + left + fill '*' / 7), flags, precision and fill compared before and after.
 #define SHOWKEEPS(M, Ty, id, L)                                                                        \
-    EXTRACT_ALLT (M, id##_showKeeps, L ".showKeepsState", { IN (Ty, a); std::ostringstream os; os << std::setprecision (5); auto fl = os.flags (); auto pr = os.precision (); auto fi = os.fill (); \
-        os << a; c.outB (os.flags () == fl && os.precision () == pr && os.fill () == fi && os.width () == 0); })
+    EXTRACT_ALLT (M, id##_showKeeps, L ".showKeepsState", { IN (Ty, a); bool kept = true;              \
+        for (int st = 0; st < 4; ++st) { std::ostringstream os;                                         \
+            if (st == 0) os << std::setprecision (5); if (st == 1) os << std::fixed << std::setprecision (3);                    \
+            if (st == 2) os << std::scientific << std::setprecision (9); if (st == 3) os << std::showpos << std::left << std::setfill ('*') << std::setprecision (7); \
+            auto fl = os.flags (); auto pr = os.precision (); auto fi = os.fill ();                     \
+            os << a; kept = kept && os.flags () == fl && os.precision () == pr && os.fill () == fi; }   \
+        c.outB (kept); })
 SHOWKEEPS ("C04Show", Vec2, v2, "V2") SHOWKEEPS ("C04Show", Vec3, v3, "V3") SHOWKEEPS ("C04Show", Vec4, v4, "V4") SHOWKEEPS ("C04Show", Color3, c3, "C3")
 SHOWKEEPS ("C04Show", Color4, c4, "C4") SHOWKEEPS ("C04Show", Shear6, sh, "Shear6") SHOWKEEPS ("C04Show", Quat, q, "Quat")
 SHOWKEEPS ("C04Show", Matrix22, m22, "M22") SHOWKEEPS ("C04Show", Matrix33, m33, "M33") SHOWKEEPS ("C04Show", Matrix44, m44, "M44")
+
+// ---- same-type copy assignment / copy constructor / element-list constructors on their own (r2 audit N3: the hand-unrolled
+// operator= (const X&) bodies of the non-matrix types and Color3 (T,T,T) were reached by no entry; the element-list
+// constructors only inside the composite getValueS entries, where two compensating swaps would pass)
+#define G_COPY(M, Ty, id, L)                                                                            \
+    EXTRACT_ALLT (M, id##_assign, L ".assign", { IN (Ty, a); IN (Ty, b); a = b; c.out (a); })            \
+    EXTRACT_ALLT (M, id##_copyCtor, L ".copyCtor", { IN (Ty, a); Ty<T> b (a); c.out (b); })
+G_COPY ("C04Vec", Vec2, v2, "V2") G_COPY ("C04Vec", Vec3, v3, "V3") G_COPY ("C04Vec", Vec4, v4, "V4")
+G_COPY ("C04Color", Color3, c3, "C3") G_COPY ("C04Color", Color4, c4, "C4") G_COPY ("C04Shear", Shear6, sh, "Shear6") G_COPY ("C04Quat", Quat, q, "Quat")
+G_COPY ("C04Mat", Matrix22, m22, "M22") G_COPY ("C04Mat", Matrix33, m33, "M33") G_COPY ("C04Mat", Matrix44, m44, "M44")
+EXTRACT_ALLT ("C04Vec", v2_ctorElems, "V2.ctorElems", { IN (Vec2, a); c.out (Vec2<T> (a.x, a.y)); })
+EXTRACT_ALLT ("C04Vec", v3_ctorElems, "V3.ctorElems", { IN (Vec3, a); c.out (Vec3<T> (a.x, a.y, a.z)); })
+EXTRACT_ALLT ("C04Vec", v4_ctorElems, "V4.ctorElems", { IN (Vec4, a); c.out (Vec4<T> (a.x, a.y, a.z, a.w)); })
+EXTRACT_ALLT ("C04Color", c3_ctorElems, "C3.ctorElems", { IN (Color3, a); c.out (Color3<T> (a.x, a.y, a.z)); })
+EXTRACT_ALLT ("C04Color", c4_ctorElems, "C4.ctorElems", { IN (Color4, a); c.out (Color4<T> (a.r, a.g, a.b, a.a)); })
+EXTRACT_ALLT ("C04Shear", sh_ctorElems, "Shear6.ctorElems", { IN (Shear6, a); c.out (Shear6<T> (a.xy, a.xz, a.yz, a.yx, a.zx, a.zy)); })
+// Matrix44 (Matrix33 r, Vec3 t): r in the upper-left block, t in the last row, (0,0,0,1) in the last column
+EXTRACT_ALLT ("C04Mat", m44_ctorRT, "M44.ctorRT", { IN (Matrix33, r); IN (Vec3, t); c.out (Matrix44<T> (r, t)); })
